@@ -31,6 +31,7 @@ EXPLANATION = (
     "Ratio(own amount, side total)). R5 only outputs 0/1 of the selected transactions are rewritten; the legacy deposit rule (removing the coin id computed after mutation) is "
     "confined to Mainnet/Testnet below height 978392. R6 stage order builtins → swaps → deposits → withdrawals → pegging; pools processed in sorted, deduplicated order."
     " Imports C01.R6 (pro_rata / multiply_frac is exactly floor(x*mine/total)). R2 accepts the canonical-key requirement as `(l < r).then_some(k)`, as a negated early return, or as an Option::filter predicate. R6 is undecided when a stage no longer exists under its name."
+    " R2 also requires that a key with a NewCustom side is refused (D23, repaired). R3 compares the pro-rata denominator on the expressions (the two side totals print alike). R3d reports what the bug-compatible deposit branch does inside its window (recorded finding D29). Shared: C01.R10."
 )
 NOT_DECIDED = ["the constant-product inequality, the 0.5% fee and exact reserve movements (PoolState arithmetic, melstructs, trusted base)",
                "multiply_frac's floor (C01.R6 checks the callee is floor)"]
